@@ -32,3 +32,19 @@ func specRowsAgreeOnMetadata(a *object.Entity, b *object.Entity) bool {
 		specSameOpt(a.ContentLanguage, b.ContentLanguage) && specSameOpt(a.Expires, b.Expires) &&
 		specSameOpt(a.WebsiteRedirectLocation, b.WebsiteRedirectLocation)
 }
+
+// ---- versioning (C02, C13), conditional writes (C07), appends (C12) ----
+
+// specIsNullVersionID: the row carries the version id "null" (the only version unversioned / suspended writes may replace).
+func specIsNullVersionID(v *string) bool { return v != nil && *v == "null" }
+
+// specETagConditionHolds: the row a conditional writer is about to replace satisfies its If-Match condition.
+func specETagConditionHolds(e *object.Entity, ifMatch *string) bool {
+	if ifMatch == nil {
+		return true
+	}
+	if e == nil || e.IsDeleteMarker {
+		return false
+	}
+	return *ifMatch == metadatastore.ETagWildcard || e.ETag == *ifMatch
+}
